@@ -10,7 +10,7 @@ const char *MC_RULE =
     "fmt cases: value x buffer size 0..32 (guard bytes 0xA5 before/after, buffer prefilled with 0x5A) over all values "
     "with <=3 bits set, 2^k and 2^k-1, every 16-bit pattern at the four 16-bit offsets, every cell of FULL(0..2) and "
     "every directed-edge and vertex index of those cells (thorough: <=4 bits, 20-bit patterns at 5 offsets); parse "
-    "cases: every byte string of length <=3 (thorough <=5) over the 16-byte alphabet {0,1,9,a,f,A,F,g,x,X,space,+,-,NUL,"
+    "cases: every byte string of length <=5 (thorough <=7) over the 16-byte alphabet {0,1,9,a,f,A,F,g,x,X,space,+,-,NUL,"
     "newline,0x80}, plain and followed by 'zz', plus overflow forms. Non-trivial: fmt cases at the size boundary "
     "(16,17) or values whose hex form has 16 digits; parse cases whose classification is VALUE or ERROR (decided).";
 const char *MC_ASSUME[] = {"parse reference: optional whitespace, optional sign, optional 0x, then >=1 hex digit = 'starts with a "
@@ -237,7 +237,7 @@ int main(int argc, char **argv) {
     uv_push(&g_vals, ~0ull);
     add_api_indexes();
     uv_sortuniq(&g_vals);
-    int patbits = mc_thorough ? 20 : 16, maxlen = mc_thorough ? 5 : 3;
+    int patbits = mc_thorough ? 20 : 16, maxlen = mc_thorough ? 7 : 5;
     snprintf(mc_bounds, sizeof mc_bounds,
              "%zu structured values x sizes 0..32; %d-bit patterns x %d offsets x sizes {0,16,17,32}; strings of length <=%d "
              "over 16 bytes, plain and +'zz'; digit runs of length 1..40 x 4 prefixes",
